@@ -65,7 +65,7 @@ def one(name, a):
     d = os.path.join(VERIF, "seeded", name)
     meta = json.load(open(os.path.join(d, "meta.json")))
     root = make_copy()
-    out = {"name": name, "property": meta["property"], "lines": []}
+    out = {"name": name, "property": meta["property"], "lines": [], "rec": {}}
     try:
         r = subprocess.run(["git", "apply", os.path.join(d, "patch.diff")], cwd=root, capture_output=True, text=True)
         if r.returncode:
@@ -84,13 +84,32 @@ def one(name, a):
             subprocess.run(["git", "apply", os.path.join(d, "patch.diff")], cwd=root)
             out["lines"].append("confirm: tests[%s] demo with patch exit %d, without exit %d" %
                                 (t, w.returncode, wo.returncode))
+            out["rec"]["confirmed"] = {"baseline_suite_with_patch": t, "demo_exit_with_patch": w.returncode,
+                                       "demo_exit_without_patch": wo.returncode,
+                                       "demo_message": (w.stdout + w.stderr).strip().splitlines()[-1][:300]
+                                       if (w.stdout + w.stderr).strip() else ""}
         checks = ALL if a.all_checks else (a.checks.split(",") if a.checks else meta["property"].split(","))
         for pid in checks:
             rc, detail, wall = run_check(pid, root, a.tier, a.seed)
             verdict = "CAUGHT" if rc == 1 else ("missed" if rc == 0 else "HARNESS(%d)" % rc)
             out["lines"].append("%-8s %s %5.0fs %s" % (verdict, pid, wall, detail if rc else ""))
+            out["rec"].setdefault("checks", {})[pid] = {"verdict": verdict.strip(), "tier": a.tier, "seed": a.seed,
+                                                         "detail": detail[:260] if rc else ""}
     finally:
         shutil.rmtree(root, ignore_errors=True)
+    if a.record and out["rec"]:
+        mp = os.path.join(d, "meta.json")
+        meta = json.load(open(mp))
+        ver = meta.setdefault("verification", {})
+        if "confirmed" in out["rec"]:
+            ver["confirmed"] = out["rec"]["confirmed"]
+        ver.setdefault("checks", {}).update(out["rec"].get("checks", {}))
+        ver["how"] = ("selftest/run_seeded.py: scratch copy of /repo outside /repo and /verif, git apply patch.diff, "
+                      "baseline suite, demo.py with and without the patch, then ./check <ID> --tier quick with "
+                      "VERIF_REPO pointing at the copy; copy removed afterwards")
+        with open(mp, "w") as f:
+            json.dump(meta, f, indent=1, ensure_ascii=False)
+            f.write("\n")
     return out
 
 
@@ -103,6 +122,7 @@ def main():
     ap.add_argument("--tier", default="quick")
     ap.add_argument("--seed", type=int, default=1)
     ap.add_argument("--jobs", type=int, default=1)
+    ap.add_argument("--record", action="store_true", help="write the outcome into seeded/<name>/meta.json")
     a = ap.parse_args()
     names = sorted(n for n in os.listdir(os.path.join(VERIF, "seeded"))
                    if os.path.exists(os.path.join(VERIF, "seeded", n, "patch.diff")))
